@@ -198,7 +198,9 @@ class Explorer:
             return any(self._fits(v, a) for a in t[1])
         if k == 'obj':
             return isinstance(v, SObj) and v.cls is not None and self.index.is_subclass(v.cls, t[1])
-        if k in ('int', 'bool', 'float', 'frac', 'fconst', 'enum', 'none'):
+        if k == 'none':
+            return v is None
+        if k in ('int', 'bool', 'float', 'frac', 'fconst', 'enum'):
             if isinstance(v, SObj):
                 return False
             if k != 'none' and v is None:
